@@ -30,6 +30,7 @@ Definition cel_ok (f : file) (i : Z) (c : cel pixels) : Prop :=
   | CRaw w h px => 0 <= w < 65536 /\ 0 <= h < 65536 /\ pixels_ok (w * h) px
   | CLinked o =>
       0 <= o < f_nframes f /\
+      (exists c', cellat (get_row (f_cels f) o) i = Some c') /\
       forall c', cellat (get_row (f_cels f) o) i = Some c' -> is_linked c' = false
   | CTilemap tm =>
       0 <= tm_w tm < 65536 /\ 0 <= tm_h tm < 65536 /\
@@ -210,6 +211,91 @@ Proof.
   - intros k r' Hk. rewrite zfind_zempty in Hk. discriminate.
 Qed.
 
+(* the converse of in_zelements *)
+Lemma zelements_complete {A} k (v : A) m : zfind k m = Some v -> In (k, v) (zelements m).
+Proof.
+  intros H. pose proof (zfind_some_nonneg _ _ _ H) as Hk. unfold zelements. apply in_flat_map. exists k. split.
+  - unfold zkeys. eapply Permutation.Permutation_in; [apply ZSort.Permuted_sort|].
+    apply in_map_iff. exists (akey k, v). split.
+    + cbn [fst]. unfold akey. rewrite Z2Pos.id by lia. lia.
+    + apply PositiveMap.elements_correct. unfold zfind in H. destruct (Z.ltb_spec k 0); [lia|]. exact H.
+  - rewrite H. left. reflexivity.
+Qed.
+
+Section FoldComplete.
+Context {A B : Type}.
+Variable g : A -> res B.
+Let step := fun (acc : zmap B) (kv : Z * A) => r <-- g (snd kv) ;;; Ok (zadd (fst kv) r acc).
+
+Lemma fold_other_keys : forall l acc acc' k, 0 <= k ->
+  (forall kv, In kv l -> 0 <= fst kv /\ fst kv <> k) -> rfold step l acc = Ok acc' -> zfind k acc' = zfind k acc.
+Proof.
+  induction l as [|[k0 v0] t IH]; intros acc acc' k Hk Hl; cbn [rfold].
+  - intros [= <-]. reflexivity.
+  - unfold step at 1. cbn [fst snd]. destruct (g v0) as [r0| |]; cbn [rbind]; try discriminate. intros H.
+    rewrite (IH _ _ k Hk (fun kv Hkv => Hl kv (or_intror Hkv)) H).
+    destruct (Hl (k0, v0) (or_introl eq_refl)) as [H0 Hne]. cbn [fst] in *. apply zfind_zadd_other; lia.
+Qed.
+
+(* every listed binding ends up in the result, validated *)
+Lemma fold_complete : forall l acc acc',
+  (forall kv, In kv l -> 0 <= fst kv) ->
+  (forall k v v', In (k, v) l -> In (k, v') l -> v = v') ->
+  rfold step l acc = Ok acc' ->
+  forall k v, In (k, v) l -> exists r, zfind k acc' = Some r /\ g v = Ok r.
+Proof.
+  induction l as [|[k0 v0] t IH]; intros acc acc' Hnn Hfun; cbn [rfold]; [intros _ k v []|].
+  unfold step at 1. cbn [fst snd]. destruct (g v0) as [r0| |] eqn:Eg; cbn [rbind]; try discriminate. intros H k v Hin.
+  assert (Htail : forall k v, In (k, v) t -> exists r, zfind k acc' = Some r /\ g v = Ok r).
+  { apply (IH _ _ (fun kv Hkv => Hnn kv (or_intror Hkv))
+               (fun k1 v1 v1' H1 H2 => Hfun k1 v1 v1' (or_intror H1) (or_intror H2)) H). }
+  destruct Hin as [[= <- <-]|Hin]; [|exact (Htail k v Hin)].
+  destruct (in_dec Z.eq_dec k0 (map fst t)) as [Hk|Hk].
+  - apply in_map_iff in Hk. destruct Hk as ([k1 v1] & E & Hin1). cbn [fst] in E. subst k1.
+    rewrite (Hfun k0 v0 v1 (or_introl eq_refl) (or_intror Hin1)). exact (Htail k0 v1 Hin1).
+  - pose proof (Hnn (k0, v0) (or_introl eq_refl)) as Hk0. cbn [fst] in Hk0.
+    assert (Hoth : forall kv, In kv t -> 0 <= fst kv /\ fst kv <> k0).
+    { intros kv Hkv. split; [apply Hnn; right; exact Hkv|]. intros E. apply Hk. apply in_map_iff. exists kv. split; [exact E|exact Hkv]. }
+    exists r0. split; [|exact Eg]. rewrite (fold_other_keys t _ _ k0 Hk0 Hoth H). apply zfind_zadd_same. exact Hk0.
+Qed.
+End FoldComplete.
+
+(* every raw row appears validated under the same frame key *)
+Lemma validate_cels_complete layers tss pal fmt t nframes nlayers cels :
+  validate_cels layers tss pal fmt t nframes nlayers = Ok cels ->
+  forall k r, zfind k t = Some r ->
+    exists r', zfind k cels = Some r' /\ validate_row layers tss pal fmt t nframes nlayers r 0 = Ok r'.
+Proof.
+  unfold validate_cels. intros H k r Hk.
+  apply (fold_complete (fun r => validate_row layers tss pal fmt t nframes nlayers r 0) (zelements t) zempty cels); [| |exact H|].
+  - intros [k0 v0] Hin. apply in_zelements in Hin. cbn [fst]. exact (zfind_some_nonneg _ _ _ Hin).
+  - intros k0 v v' H1 H2. apply in_zelements in H1. apply in_zelements in H2. congruence.
+  - apply zelements_complete. exact Hk.
+Qed.
+
+Lemma validate_row_complete layers tss pal fmt t nframes nlayers : forall r id r', 0 <= id ->
+  validate_row layers tss pal fmt t nframes nlayers r id = Ok r' ->
+  forall i c, nthz r i = Some (Some c) ->
+    exists c', nthz r' i = Some (Some c') /\ validate_cel layers tss pal fmt t nframes nlayers (id + i) c = Ok c'.
+Proof.
+  induction r as [|oc rest IH]; intros id r' Hid; cbn [validate_row].
+  - intros _ i c Hi. apply nthz_some in Hi. unfold zlen in Hi. cbn [length] in Hi. lia.
+  - destruct oc as [c0|].
+    + destruct (validate_cel layers tss pal fmt t nframes nlayers id c0) as [c1| |] eqn:Ec; cbn [rbind]; try discriminate.
+      destruct (validate_row layers tss pal fmt t nframes nlayers rest (id + 1)) as [rest'| |] eqn:Er; cbn [rbind]; try discriminate.
+      intros [= <-] i c Hi. destruct (Z.eq_dec i 0) as [->|Hne].
+      * rewrite nthz_cons_0 in Hi. injection Hi as <-. exists c1. rewrite nthz_cons_0, Z.add_0_r. split; [reflexivity|exact Ec].
+      * pose proof (nthz_some _ _ _ Hi) as Hr. rewrite nthz_cons_pos in Hi by lia.
+        destruct (IH (id + 1) rest' ltac:(lia) Er (i - 1) c Hi) as (c' & H1 & H2). exists c'. rewrite nthz_cons_pos by lia.
+        split; [exact H1|]. replace (id + i) with (id + 1 + (i - 1)) by lia. exact H2.
+    + cbn [rbind]. destruct (validate_row layers tss pal fmt t nframes nlayers rest (id + 1)) as [rest'| |] eqn:Er; cbn [rbind]; try discriminate.
+      intros [= <-] i c Hi. destruct (Z.eq_dec i 0) as [->|Hne].
+      * rewrite nthz_cons_0 in Hi. discriminate.
+      * pose proof (nthz_some _ _ _ Hi) as Hr. rewrite nthz_cons_pos in Hi by lia.
+        destruct (IH (id + 1) rest' ltac:(lia) Er (i - 1) c Hi) as (c' & H1 & H2). exists c'. rewrite nthz_cons_pos by lia.
+        split; [exact H1|]. replace (id + i) with (id + 1 + (i - 1)) by lia. exact H2.
+Qed.
+
 (* a cel found in a table sits in a stored row *)
 Lemma cellat_get_row (t : celtable pixels) fr i c : cellat (get_row t fr) i = Some c ->
   exists r, zfind fr t = Some r /\ nthz r i = Some (Some c).
@@ -280,7 +366,13 @@ Proof.
     destruct (c_content c) as [w hh rp|o|tm] eqn:Ec, (c_content c') as [w' hh' px|o'|tm'] eqn:Ec'; cbn [content_rel] in Hrel; try contradiction.
     + destruct Hrel as [<- <-]. destruct Hraw as (Hw & Hhh & Hlen & HW). destruct Hmore as (l & _ & Hpx).
       split; [exact Hw|]. split; [exact Hhh|]. rewrite <- Hlen. eapply validate_pixels_ok; [exact P5|exact Hpx|exact HW].
-    + subst o'. destruct Hmore as (Ho & c0 & Hc0 & Hl0). split; [lia|].
+    + subst o'. destruct Hmore as (Ho & c0 & Hc0 & Hl0). split; [lia|]. split.
+      { assert (Hr0 : exists r0, zfind o (pi_cels p) = Some r0 /\ nthz r0 i = Some (Some c0)).
+        { unfold get_row in Hc0. destruct (zfind o (pi_cels p)) as [r0|]; [eauto|]. exfalso. exact (nthz_single_none _ _ Hc0). }
+        destruct Hr0 as (r0 & Hr0 & Hc0').
+        destruct (validate_cels_complete _ _ _ _ _ _ _ _ Hcels o r0 Hr0) as (r0' & Hr0' & Hrow0).
+        destruct (validate_row_complete _ _ _ _ _ _ _ r0 0 r0' ltac:(lia) Hrow0 i c0 Hc0') as (c0' & Hc0'' & _).
+        exists c0'. unfold cellat, get_row. rewrite Hr0', Hc0''. reflexivity. }
       intros c'' Hc''. destruct (Hprov o i c'' Hc'') as (r2 & c2 & Hr2 & Hc2 & Hcel2).
       destruct (validate_cel_spec _ _ _ _ _ _ _ _ _ _ Hcel2) as (_ & Hrel2 & _).
       rewrite (is_linked_rel _ _ Hrel2). unfold get_row in Hc0. rewrite Hr2 in Hc0. rewrite Hc2 in Hc0. injection Hc0 as <-. exact Hl0.
